@@ -74,7 +74,26 @@ pub fn seqs_case(case: &Value, dispatch: Dispatch, r: &mut Report) {
     if let Some(e) = dispatch(case["elem"].as_u64().unwrap() as usize) {
         let known = bytes_of(&case["known"]);
         let unknown = bytes_of(&case["unknown"]);
+        let vec_ops = case.get("vec").and_then(|v| v.as_u64()).and_then(|t| dispatch(t as usize));
         for (name, got) in e.encode_as_sequences(case["xs"].as_array().unwrap()) {
+            // whatever form the writer chose: the bytes, followed by other data, decode to the items written
+            if let (Some(vops), Outcome::Ok(real)) = (vec_ops, &got) {
+                r.count("seqs_dec");
+                let items: Vec<Value> = case["xs"].as_array().unwrap().iter().skip(if name == "iter_dropping" { 1 } else { 0 }).cloned().collect();
+                let mut model = vec![json!(8)];
+                model.extend(items);
+                let mut more = real.clone();
+                more.extend_from_slice(&[0xDE, 0xAD]);
+                match (vops.canon(&Value::Array(model)), vops.decode(&more)) {
+                    (Ok(want), Outcome::Ok(d)) if d.v == want && d.left == 2 => {}
+                    (Err(_), _) => r.skip("items outside the glue's domain"),
+                    (_, other) => r.finding("seqs_dec", &["C12", "C07"], json!({"elem": e.rust_name(), "writer": name, "xs": case["xs"], "bytes": real,
+                        "got": crate::ops::outcome_json(&other, |d| json!({"v": d.v, "left": d.left}))})),
+                }
+            }
+            if name == "iter_dropping" {
+                continue;
+            }
             r.count("seqs");
             // a filtered iterator over nothing has the exact size hint (0, Some(0)): known-length form
             let n = case["xs"].as_array().map(|a| a.len()).unwrap_or(0);
